@@ -79,7 +79,12 @@ static std::string run_case(const Case &c0, std::string &msg) {
         vp::Block buf((pre + c.n) * 2);
         uint16_t *w = (uint16_t *)buf.p;
         for (size_t i = 0; i < pre + c.n; i++) w[i] = 0x7e57;
+        // a read leaves the table as it found it, octet for octet: the descriptor, the area descriptions and the entries (a table in write-protected
+        // memory, or one that is compared or checksummed as a whole, is a table all the same)
+        std::vector<uint8_t> snapt((const uint8_t *)&lv.t, (const uint8_t *)&lv.t + sizeof lv.t), snapa((const uint8_t *)lv.areas, (const uint8_t *)lv.areas + (c.t.areas.size() + 1) * sizeof(RegisterArea)),
+                             snape((const uint8_t *)lv.entries, (const uint8_t *)lv.entries + (c.t.regs.size() + 1) * sizeof(RegisterEntry));
         RegisterAccess a = register_block_read(&lv.t, c.addr, c.n, w + pre);
+        if (memcmp(snapt.data(), &lv.t, sizeof lv.t) != 0 || memcmp(snapa.data(), lv.areas, snapa.size()) != 0 || memcmp(snape.data(), lv.entries, snape.size()) != 0) { msg = "the block read changed the table descriptor, an area description or an entry"; return "read:table-description-changed"; }
         for (size_t i = 0; i < pre; i++) if (w[i] != 0x7e57) { msg = "words in front of the caller's buffer changed"; return "read:wrote-before-buffer"; }
         if (lv.diff(m) >= 0) { msg = "block read changed the table's storage"; return "read:storage-changed"; }
         long unm = -1;
@@ -214,7 +219,7 @@ static void run() {
     FamilyOpts wide; wide.huge = 2; wide.many = 2; wide.max_size = 8;             // every 60th table: an area beyond 2^16 words, or 32..70 registers
     relayout_phase(rng, (a.thorough() ? 400000 : 40000) / a.nshards);
     for (size_t ti = 0; ti < ntables && !vp::too_many_failures(); ti++) {
-        Case c; c.t = gen_table(rng, (ti % 60 == 59) ? wide : (a.thorough() && ti % 8 == 7) ? big : fo);
+        Case c; c.t = gen_table(rng, (ti % 60 == 59) ? wide : (ti % 8 == 7) ? big : fo);
         if (ti % 3 == 1) for (auto &ar : c.t.areas) { bool hasreg = false; for (auto &r : c.t.regs) if (r.addr >= ar.base && r.addr < ar.end()) hasreg = true; if (!hasreg) ar.has_read = false; }   // register-less areas without read callback (a reserved window, a write-only driver)
         rm::Space m; m.init(c.t);
         for (auto &ar : m.mem) for (auto &w : ar) w = (uint16_t)(rng.next() | 1);   // never zero: a zeroed write-only area must be distinguishable
